@@ -1,1 +1,143 @@
-// verification hook for h263/src/decoder/cpu/gather.rs (compiled only under cfg(kani) or cfg(ruffle_rs_h263_rs_verif))
+// Hook module of h263/src/decoder/cpu/gather.rs: sibling harnesses of the Verus contracts of read_sample / lerp / gather_block
+// (same postconditions, written against an executable form of the H.263 6.1.2 spec). Natively they are the witness search for a
+// failed Verus obligation (all shape parameters come from the witness bytes); under Kani they are bounded cross-checks on
+// concrete shapes with symbolic plane contents.  Property: C03.
+#![allow(dead_code, unused_imports)]
+use super::*;
+use crate::types::HalfPel;
+
+include!("/verif/hooks/common.rs");
+
+fn clampi(x: i64, lo: i64, hi: i64) -> i64 {
+    if x < lo { lo } else if x > hi { hi } else { x }
+}
+fn samp(a: &[u8], w: i64, h: i64, x: i64, y: i64) -> i64 {
+    a[(clampi(x, 0, w - 1) + clampi(y, 0, h - 1) * w) as usize] as i64
+}
+// H.263 6.1.2: A at the integer position, B right, C below, D diagonal; (A+B+1)/2, (A+C+1)/2, (A+B+C+D+2)/4
+fn bilin(a: &[u8], w: i64, h: i64, x: i64, y: i64, mx: i64, my: i64) -> i64 {
+    let x0 = x + mx.div_euclid(2);
+    let y0 = y + my.div_euclid(2);
+    let hx = mx.rem_euclid(2) == 1;
+    let hy = my.rem_euclid(2) == 1;
+    let (aa, bb, cc, dd) = (samp(a, w, h, x0, y0), samp(a, w, h, x0 + 1, y0), samp(a, w, h, x0, y0 + 1), samp(a, w, h, x0 + 1, y0 + 1));
+    if !hx && !hy { aa } else if hx && !hy { (aa + bb + 1) / 2 } else if !hx && hy { (aa + cc + 1) / 2 } else { (aa + bb + cc + dd + 2) / 4 }
+}
+
+fn gb_core<S: Src>(s: &mut S, reference: &[u8], target: &mut [u8], w: usize, h: usize, px: usize, py: usize, mx: i16, my: i16) {
+    let before: Vec<u8> = target.to_vec();
+    let mv: MotionVector = (HalfPel::from_unit(mx), HalfPel::from_unit(my)).into();
+    gather_block(reference, w, (px, py), mv, target);
+    let mut ok_pix = true;
+    let mut ok_frame = true;
+    let mut y = 0;
+    while y < h {
+        let mut x = 0;
+        while x < w {
+            let inside = x >= px && x < px + 8 && y >= py && y < py + 8;
+            let got = target[x + y * w] as i64;
+            if inside {
+                if got != bilin(reference, w as i64, h as i64, x as i64, y as i64, mx as i64, my as i64) {
+                    ok_pix = false;
+                }
+            } else if got != before[x + y * w] as i64 {
+                ok_frame = false;
+            }
+            x += 1;
+        }
+        y += 1;
+    }
+    chk!(s, ok_pix, "gather.gather_block.post_pixel: every sample of the block inside the picture == bilinear half-sample prediction with edge clamping");
+    chk!(s, ok_frame, "gather.gather_block.frame: no sample outside the 8x8 block is written");
+    s.reach();
+}
+
+// Kani: concrete shape, symbolic contents
+fn h_gb<S: Src, const W: usize, const H: usize, const N: usize>(s: &mut S, px: usize, py: usize, mx: i16, my: i16) {
+    let reference: [u8; N] = s.arr();
+    let mut target: [u8; N] = s.arr();
+    gb_core(s, &reference, &mut target, W, H, px, py, mx, my);
+}
+// native: shape from the witness
+#[cfg(not(kani))]
+fn h_gb_dyn(s: &mut RSrc) {
+    let w = 1 + (s.u8() % 40) as usize;
+    let h = 1 + (s.u8() % 40) as usize;
+    let px = ((s.u8() % 6) as usize) * 8;
+    let py = ((s.u8() % 6) as usize) * 8;
+    let mx = (s.u8() as i16) - 128;
+    let my = (s.u8() as i16) - 128;
+    let mx = if s.u8() % 4 == 0 { mx } else { mx / 4 };
+    let my = if s.u8() % 4 == 0 { my } else { my / 4 };
+    // mostly blocks that start inside the picture; edge-aligned sources are the interesting ones
+    let reference: Vec<u8> = (0..w * h).map(|_| s.u8()).collect();
+    let mut target: Vec<u8> = (0..w * h).map(|_| s.u8()).collect();
+    gb_core(s, &reference, &mut target, w, h, px, py, mx, my);
+}
+#[cfg(not(kani))]
+fn h_lerp_dyn(s: &mut RSrc) {
+    let (a, b, m) = (s.u8(), s.u8(), s.bool());
+    let r = lerp(a, b, m) as u16;
+    chk!(s, r == if m { (a as u16 + b as u16 + 1) / 2 } else { a as u16 }, "gather.lerp.post: the half-sample average rounds upward");
+    s.reach();
+}
+#[cfg(not(kani))]
+fn h_read_sample_dyn(s: &mut RSrc) {
+    let w = 1 + (s.u8() % 20) as usize;
+    let h = 1 + (s.u8() % 20) as usize;
+    let x = (s.u8() as isize) - 100;
+    let y = (s.u8() as isize) - 100;
+    let a: Vec<u8> = (0..w * h).map(|_| s.u8()).collect();
+    let r = read_sample(&a, w, h, (x, y)) as i64;
+    chk!(s, r == samp(&a, w as i64, h as i64, x as i64, y as i64), "gather.read_sample.post: the sample at the position clamped to the picture edge");
+    s.reach();
+}
+
+#[cfg(kani)]
+mod proofs {
+    use super::*;
+    macro_rules! gb {
+        ($name:ident, $w:expr, $h:expr, $px:expr, $py:expr, $mx:expr, $my:expr) => {
+            #[kani::proof]
+            #[kani::unwind(300)]
+            fn $name() {
+                h_gb::<KSrc, $w, $h, { $w * $h }>(&mut KSrc, $px, $py, $mx, $my)
+            }
+        };
+    }
+    // fast path, clamped copy at each edge, each interpolation phase, block cut by the right / bottom edge, block outside
+    gb!(gb_16x16_fast, 16, 16, 8, 8, -4, 2);
+    gb!(gb_16x16_clamp_left, 16, 16, 0, 0, -6, -2);
+    gb!(gb_16x16_clamp_right, 16, 16, 8, 8, 6, 4);
+    gb!(gb_16x16_hx, 16, 16, 0, 8, 3, 0);
+    gb!(gb_16x16_hy, 16, 16, 8, 0, 0, -5);
+    gb!(gb_16x16_hxy, 16, 16, 8, 8, 31, -31);
+    gb!(gb_11x9_cut, 11, 9, 8, 8, 1, 1);
+    gb!(gb_9x9_outside, 9, 9, 16, 0, 2, 2);
+}
+
+#[cfg(all(test, not(kani)))]
+mod replay {
+    use super::*;
+    fn dispatch(name: &str, r: &mut RSrc) -> bool {
+        match name {
+            "gb_dyn" => h_gb_dyn(r),
+            "lerp_dyn" => h_lerp_dyn(r),
+            "read_sample_dyn" => h_read_sample_dyn(r),
+            "gb_16x16_fast" => h_gb::<RSrc, 16, 16, 256>(r, 8, 8, -4, 2),
+            "gb_16x16_clamp_left" => h_gb::<RSrc, 16, 16, 256>(r, 0, 0, -6, -2),
+            "gb_16x16_clamp_right" => h_gb::<RSrc, 16, 16, 256>(r, 8, 8, 6, 4),
+            "gb_16x16_hx" => h_gb::<RSrc, 16, 16, 256>(r, 0, 8, 3, 0),
+            "gb_16x16_hy" => h_gb::<RSrc, 16, 16, 256>(r, 8, 0, 0, -5),
+            "gb_16x16_hxy" => h_gb::<RSrc, 16, 16, 256>(r, 8, 8, 31, -31),
+            "gb_11x9_cut" => h_gb::<RSrc, 11, 9, 99>(r, 8, 8, 1, 1),
+            "gb_9x9_outside" => h_gb::<RSrc, 9, 9, 81>(r, 16, 0, 2, 2),
+            _ => return false,
+        }
+        true
+    }
+    #[test]
+    fn verif_replay() {
+        verif_replay_main(dispatch)
+    }
+}
